@@ -118,6 +118,8 @@ def run(fx, chk, tier):
     chk.assume("A-MEM: no in-memory collection has 2^32 or more elements")
     chk.assume("A-HIST: fewer than 2^32 - 1 samples are written to any one track (per-track counters are u32)")
     chk.assume("A-STD: std/alloc/serde/bytes functions outside the panicking-callee table do not panic except on allocation failure")
+    chk.assume("A-NOFAULT: the stream does not fail (the statement quantifies over arguments and call sequences; a failing stream is C10's subject, where only the call in progress is constrained). "
+               "The accepted invariant chunk_samples <= sample_id relies on it: an I/O fault inside the chunk flush returns between the two increments")
     ents = muxer_entries(fx)
     chk.floor("PF", "muxer entry points", len(ents), 10)
     ua = panicfree.user_adts(fx, ents)
